@@ -639,6 +639,11 @@ func runAdversaryCase(t *testing.T, c *advCase, proto bool, idx int) (what, clas
 				continue // not decodable: outside the property
 			}
 			w.Quiesce()
+			if times > 1 {
+				// every copy may keep a handler busy until its time-out (10 s) - one after the other under the channel's
+				// mutex; the property speaks about the time AFTER the messages have been handled
+				w.Sleep(time.Duration(times) * 11 * time.Second)
+			}
 			w.Sleep(500 * time.Millisecond)
 			// proposals and updates that reach the user's handlers are refused by the (honest) user
 			for pp := h.TakeProposal(); pp != nil; pp = h.TakeProposal() {
@@ -705,6 +710,11 @@ func runAdversaryCase(t *testing.T, c *advCase, proto bool, idx int) (what, clas
 			r := u.Resp
 			go func() { _ = r.Reject(ctx, "no") }()
 			w.Quiesce()
+		}
+		for _, cl := range c.Seq { // copies that waited for what the situation had left open are handled only now
+			if strings.HasSuffix(cl, "-x20") {
+				w.Sleep(20 * 11 * time.Second)
+			}
 		}
 		w.Bus.mu.Lock()
 		w.Bus.Pending = nil
